@@ -280,6 +280,40 @@ static void register_templates() {
             os << a;
         });
     });
+    reg("slice_same_array", [](V& v) {
+        //slice-to-slice assignment inside ONE array: overlapping and disjoint ranges, destination before and after the source,
+        //unit and non-unit strides, equal and unequal counts
+        const int n = v.pick({2, 3, 9, 16, 65, 300});
+        const int cd = v.choose(6);
+        const int cs = v.choose(6);
+        const int cc = v.choose(5);
+        const int sd = v.pick({1, -1, 2});
+        const int ss = v.pick({1, -1, 2, 3});
+        const int extra = v.pick({0, 0, 1, -1});
+        const int cplx = v.choose(2);
+        v.run([=] {
+            const int pos[6] = {0, 1, n / 4, n / 2, n - 2, n - 1};
+            const int cnts[5] = {1, 2, n / 4 + 1, n / 2, n - 1};
+            const int d0 = pos[cd];
+            const int s0 = pos[cs];
+            const int cnt = cnts[cc];
+            auto stop = [](int start, int count, int step) { return start + count * step; };
+            auto go = [&](auto a) {
+                const auto& ca = a;
+                tolerate([&] { a.slice(d0, stop(d0, cnt, sd), sd) = a.slice(s0, stop(s0, cnt + extra, ss), ss); });
+                tolerate([&] { a.slice(d0, stop(d0, cnt, sd), sd) = ca.slice(s0, stop(s0, cnt + extra, ss), ss); });
+                tolerate([&] { a.slice(0, n - 1) = a.slice(1, n); });
+                tolerate([&] { a.slice(1, n) = a.slice(0, n - 1); });
+                tolerate([&] { a.slice(0, cnt) = a.slice(0, cnt + 1); });
+                use(a);
+            };
+            if (cplx) {
+                go(AC(n));
+            } else {
+                go(AR(n));
+            }
+        });
+    });
     reg("print_arrays", [](V& v) {
         const int n = v.pick({0, 1, 3});
         v.run([=] {
@@ -748,6 +782,28 @@ static void register_templates() {
                 use(double(pp.size()));
                 use(double(dl::IResampler::next_size(nx, p, q) + dl::IResampler::prev_size(nx, p, q)));
             }
+        });
+    });
+
+    reg("resample_rates_in_hz", [](V& v) {
+        //rates given in Hz (not in lowest terms) with inputs long enough that len * rate does not fit 32 bits
+        const int k = v.choose(6);
+        const int nx = v.pick({1, 441, 44740, 50000, 100001});
+        const int f = v.choose(4);
+        v.run([=] {
+            const int ps[6] = {48000, 16000, 44100, 48000, 8000, 96000};
+            const int qs[6] = {16000, 48000, 48000, 44100, 8000, 32000};
+            const int p = ps[k];
+            const int q = qs[k];
+            switch (f) {
+            case 0: use(dl::resample(AR(nx), p, q)); break;
+            case 1: use(dl::resample(AR(nx), p, q, dl::abs(AR(25)) + 0.1)); break;
+            case 2: use(dl::resample(AR(nx), p, q, dl::abs(AR(96)) + 0.1)); break;
+            default: use(dl::resample(AR(nx), p, q, 3, 2.0)); break;
+            }
+            dl::FIRResampler r(p, q);
+            use(r.process(AR(r.decim_rate() * 7)));
+            use(double(dl::IResampler::next_size(nx, p, q) + dl::IResampler::prev_size(nx, p, q)));
         });
     });
 
